@@ -500,11 +500,14 @@ pub fn s_bulk_history() -> impl Strategy<Value = (Vec<u8>, Vec<Op>)> + Sync {
 
 pub fn for_each_history(cfg: &Cfg, tag: &str, f: &(dyn Fn(&[u8], &[Op], &mut Stats, Count) + Sync)) -> Stats {
     let mut total = Stats::new();
-    let alpha = ops::op_alphabet();
-    let n = alpha.len() as u64;
+    let full_alpha = ops::op_alphabet();
     let maxlen = cfg.pick(3u32, 4u32);
     for start in [&b""[..], FIXED_START] {
         for len in 1..=maxlen {
+            // length 4 (thorough tier) over the first 30 operations only: 35^4 x 2 starts x 2 builds took
+            // the run to within minutes of the driver's cap on a loaded machine
+            let alpha: Vec<Op> = if len >= 4 { full_alpha[..30.min(full_alpha.len())].to_vec() } else { full_alpha.clone() };
+            let n = alpha.len() as u64;
             let cnt = n.pow(len);
             let s = par_range(cnt, |mut i, st| {
                 let mut seq = Vec::with_capacity(len as usize);
